@@ -11,6 +11,7 @@ import (
 	"verif.local/harness/tsskit"
 	"verif.local/mc"
 	"verif.local/sched"
+	"verif.local/shim/vsync"
 	"verif.local/world"
 )
 
@@ -159,6 +160,11 @@ func schedProgram(r *mc.Run, p prog) func(x *mc.X) {
 	merges(p.threads, func(order [][2]int) {
 		refs = append(refs, sequential(p, order))
 	})
+	// if the store tried a lock in those runs, preemptions inside critical
+	// sections become observable: make Unlock a scheduling point as well
+	if vsync.Adapt() {
+		r.Extra["unlock_points"] = true
+	}
 	return func(x *mc.X) {
 		world.Run(r.T, x, func(w *world.World) {
 			server.VerifResetTSS()
